@@ -14,10 +14,13 @@ pub struct ColorOpts {
     pub ctx_reset: bool,
     pub old: &'static str,
     pub new: &'static str,
+    /// the hunk lines come from a CRLF file (their plain form ends in CR): git writes the CR
+    /// after the reset; Some(true): on added lines the CR is flagged as a whitespace error
+    pub crlf: Option<bool>,
 }
 
 pub fn gen_opts(t: &mut Tape) -> ColorOpts {
-    ColorOpts { reset0: t.chance(1, 4), split_marker: t.coin(), ctx_reset: t.chance(1, 4), old: "31", new: "32" }
+    ColorOpts { reset0: t.chance(1, 4), split_marker: t.coin(), ctx_reset: t.chance(1, 4), old: "31", new: "32", crlf: None }
 }
 
 fn wrap(o: &ColorOpts, code: &str, s: &str) -> String {
@@ -81,6 +84,29 @@ pub fn colorize(lines: &[InLine], o: &ColorOpts) -> Vec<InLine> {
                             cols.iter().rposition(|c| *c == '-' || *c == '+').map(|i| i + 1).unwrap_or(1)
                         }
                     };
+                    if let (Some(flag_cr), Some(body)) = (o.crlf, t.strip_suffix('\r')) {
+                        // emit_line_0: set, sign + line, reset, then the carriage return
+                        let reset = if o.reset0 { "\x1b[0m" } else { "\x1b[m" };
+                        return InLine {
+                            text: match kind {
+                                LK::Ctx => format!("{}{}\r", body, reset),
+                                LK::Minus => format!("\x1b[{}m{}{}\r", o.old, body, reset),
+                                LK::Plus => {
+                                    if flag_cr {
+                                        let mut s = format!("\x1b[{}m{}{}", o.new, &body[..plen], reset);
+                                        if body.len() > plen {
+                                            s.push_str(&format!("\x1b[{}m{}{}", o.new, &body[plen..], reset));
+                                        }
+                                        s.push_str(&format!("\x1b[41m\r{}", reset));
+                                        s
+                                    } else {
+                                        format!("\x1b[{}m{}{}\r", o.new, body, reset)
+                                    }
+                                }
+                            },
+                            role: l.role.clone(),
+                        };
+                    }
                     match kind {
                         LK::Ctx => {
                             if o.ctx_reset {
